@@ -22,5 +22,6 @@ let () =
   | "emit" -> Emitdrv.run ()
   | "macro" -> Macrodrv.run ()
   | "request" -> Reqdrv.run ()
+  | "auth" -> Reqdrv.run_auth ()
   | "serde" -> Serdedrv.run ()
   | m -> prerr_endline ("unknown mode " ^ m); exit 2
